@@ -93,7 +93,9 @@ type ConstraintError struct {
 	Reason string
 }
 
-func (e *ConstraintError) Error() string { return "constraint violation at " + e.Path + ": " + e.Reason }
+func (e *ConstraintError) Error() string {
+	return "constraint violation at " + e.Path + ": " + e.Reason
+}
 
 func cerr(path, format string, a ...any) error {
 	return &ConstraintError{Path: path, Reason: fmt.Sprintf(format, a...)}
